@@ -516,7 +516,27 @@ def _r1(model, rep):
             c, p_ = p_, parent.get(id(p_))
         if not ok_ and not in_test:
             unguarded.append(u)
-    _v(rep, R1, not unguarded and not wr_fd, "legacy-tag-parser",
+    # ... or, when it is reached, it must leave such files alone: a group
+    # number without a name (every number, the table being empty) creates no
+    # tag.  (Seed C17-6 removes the guard; since the repair of F89 that no
+    # longer changes what is loaded, and demanding the guard regardless was
+    # a false alarm in waiting.)
+    finders_ = [n for n in ast.walk(fm.node) if isinstance(
+        n, ast.FunctionDef) and n is not fm.node and any(
+        "field_data" in src(x) for x in ast.walk(n))]
+    harmless = False
+    if len(finders_) == 1:
+        fd_ = finders_[0]
+        none_ = any(isinstance(r, ast.Return) and (r.value is None or (
+            isinstance(r.value, ast.Constant) and r.value.value is None))
+            for r in ast.walk(fd_))
+        keyed_ = [n for n in ast.walk(fm.node) if isinstance(n, ast.Assign)
+                  and isinstance(n.targets[0], ast.Subscript)
+                  and isinstance(n.targets[0].slice, ast.Call)
+                  and src(n.targets[0].slice.func) == fd_.name]
+        harmless = none_ and not keyed_
+    _v(rep, R1, (not unguarded or harmless) and not wr_fd,
+       "legacy-tag-parser",
        f"the writer passes no field_data and the {len(uses)} uses of "
        f"{marg}.field_data (names of MSH 2.2 physical groups) sit under a "
        f"test that the table is present: files written by to_meshio never "
@@ -1114,9 +1134,15 @@ MUTANTS = [
      [(FM, "            data['t'] = np.ascontiguousarray(np.array(data['t'])"
        ".T)", "            data['t'] = np.ascontiguousarray(np.array("
        "data['t']))")], "C17-R1"),
-    ("legacy MSH 2.2 parser entered without a table of names",
+    ("legacy MSH 2.2 parser entered without a table of names and unnamed "
+     "groups keyed by the lookup result",
      [(FIO, _G22, "    if len(boundaries) == 0 and 'gmsh:physical' in "
-       "m.cell_data:")], "C17-R1"),
+       "m.cell_data:"),
+      (FIO, "                name = find_tagname(tag, mtmp.dim())\n"
+       "                if name is not None:\n"
+       "                    subdomains[name] = t_set",
+       "                subdomains[find_tagname(tag, mtmp.dim())] = t_set")],
+     "C17-R1"),
     ("npz loader removes the prefix wherever it occurs in the name",
      [(FM, "                key[2:]: data[key]\n                for key in "
        "data.files\n                if key[:2] == 'b_'",
@@ -1206,6 +1232,10 @@ MUTANTS = [
       "'subdomains': subdomains,"), "C17-R1"),
 ]
 TWINS = [
+    ("legacy MSH 2.2 parser entered without a table of names (harmless "
+     "since unnamed groups create no tag: seed C17-6 on the repaired tree)",
+     [(FIO, _G22, "    if len(boundaries) == 0 and 'gmsh:physical' in "
+       "m.cell_data:")]),
     ("gmsh namespace tested with startswith",
      [(_IO, "                      if meshio_type in v and k.split(\":\")[0] "
        "!= \"gmsh\"}", "                      if meshio_type in v and not "
